@@ -221,6 +221,23 @@ def spelled(t, sp):
 # ---------------------------------------------------------------------------------------------
 # rendering
 # ---------------------------------------------------------------------------------------------
+def embeds(P):
+    """embedded packets of P: the IR keeps the borrowed fields INLINE in P['fields'] (that is what embed=True means: they
+    are fields of the embedding class); the first of them carries the marker '_embed' = {'name', 'cls', 'n'}. Returns
+    [(index of the first borrowed field, marker, packet IR of the embedded class)]"""
+    out = []
+    for i, (fname, node) in enumerate(P['fields']):
+        m = node.get('_embed')
+        if m:
+            flds = []
+            for n2, nd in P['fields'][i:i + m['n']]:
+                nd = dict(nd)
+                nd.pop('_embed', None)
+                flds.append((n2, nd))
+            out.append((i, m, PKT(m['cls'], flds)))
+    return out
+
+
 def subpackets(P, acc=None):
     """all packet IRs reachable from P, dependencies first, P last (by name, each once)"""
     if acc is None:
@@ -245,6 +262,8 @@ def subpackets(P, acc=None):
             return
         for _, node in p['fields']:
             visit_node(node)
+        for _, _, q in embeds(p):
+            visit(q)
         acc.append(p)
 
     visit(P)
@@ -396,9 +415,18 @@ def pkt_src(P):
         lines.append('    __bisturi__ = SHARED')      # one options dict OBJECT shared by every class of the module
     elif opts:
         lines.append('    __bisturi__ = %r' % (dict(opts),))
-    for fname, node in P['fields']:
+    emb = {i: m for i, m, _ in embeds(P)}
+    skip = 0
+    for i, (fname, node) in enumerate(P['fields']):
         if node['k'] == 'seq' and node['until'] is not None:
             node['until']['fname'] = fname
+        if skip:
+            skip -= 1
+            continue
+        if i in emb:
+            lines.append('    %s = Ref(%s, embed=True)' % (emb[i]['name'], emb[i]['cls']))
+            skip = emb[i]['n'] - 1
+            continue
         lines.append('    %s = %s' % (fname, node_src(node)))
     if not lines:
         lines.append('    pass')
